@@ -7,6 +7,7 @@
 #include <exception>
 
 #include "kernel.hpp"
+#include "refjson.hpp"
 #include "simalloc.hpp"
 
 namespace sim {
@@ -153,6 +154,8 @@ int main(int argc, char** argv) {
     _exit(78);
   });
   setvbuf(stdout, nullptr, _IOLBF, 0);
+  if (!ARDUINOJSON_USE_DOUBLE)
+    sim::looseTolerance() = 1e-5;
   if (argc < 2) {
     fprintf(stderr,
             "usage: sim gen <family> <mode> <rootseed> <run>\n"
